@@ -23,7 +23,7 @@ Size ladder (added; same oracles):
           last cell, 64-bit integers beyond 2^53, NaN / -inf / -0.0 / max / subnormal for floats; "checker": two
           extremes alternating) x {save -> 3 load routes, harness-written BYTEORDER M -> from_header, harness-written
           BYTEORDER I -> from_stream, to_dict/from_dict, clone, clone(dtype), Catchment's copy} with independence
-  clip-ladder : 13 shapes (16..1025 cells a side; thorough 4097) x 2 dtypes x 3 geometries x 11 structured boxes
+  clip-ladder : 25 shapes (7..1025 cells a side; thorough 4097) x 2 dtypes x 3 geometries x 11 structured boxes
           (whole grid, inner frame, corner cells, halves, window across the middle, all but the last row / column)
           x 3 corner offsets; the whole clipped window is compared with the parent window
   catch-ladder: flow grids converging on a sink (optionally with isolated pits = holes) of 16x16 .. 128x129 cells,
@@ -49,7 +49,7 @@ RULE = ("nested enumeration: (io) shape x 11 dtypes x every rotation of the dtyp
         "the catchment was delineated. Cases are produced once each by nested loops over distinct "
         "coordinates (distinct by construction). SIZE LADDER: one unit per shape (1xN, Nx1 for the ladder 7..1025, "
         "NxN and Nx(N+1) for N in 7..257) x 2 dtypes (rotating over the 11) x {ramp, checker} cell patterns x 9 "
-        "load / dict / clone operations; 13 clip shapes x 2 dtypes x 3 geometries x 11 structured boxes x 3 offsets "
+        "load / dict / clone operations; 25 clip shapes x 2 dtypes x 3 geometries x 11 structured boxes x 3 offsets "
         "(whole-window comparison); 8 flow-grid shapes x 3 sinks x pits x 5 outlets x 5 inlet sets for the catchment "
         "dictionary; LAYOUTS: 7 memory layouts / containers of the cells through the data setter on every ladder "
         "shape, followed by clone and save/from_header (differential).")
@@ -1178,8 +1178,9 @@ def check_clip_big(ctx, Grid, case):
         ctx.count("unjudged.clip.shape_differs_from_cell_box")
 
 
-CLIP_LADDER = [(1, 16), (17, 1), (1, 257), (256, 1), (1, 1025), (1024, 1), (16, 16), (17, 17), (64, 65), (65, 64),
-               (256, 256), (257, 257), (255, 258)]
+CLIP_LADDER = [(1, 16), (17, 1), (1, 31), (33, 1), (1, 128), (129, 1), (1, 257), (256, 1), (1, 512), (513, 1),
+               (1, 1025), (1024, 1), (7, 8), (9, 9), (16, 16), (17, 17), (31, 32), (33, 33), (64, 65), (65, 64),
+               (127, 128), (129, 129), (256, 256), (257, 257), (255, 258)]
 CLIP_LADDER_THOROUGH = [(1, 4097), (4096, 1), (512, 513), (1025, 1025), (33, 1000)]
 CLIP_GEOMS = [(1.0, 0.0, 0.0), (0.1, 1.0 / 3, -123456.789012345), (2.0 ** -20, 112.0, -44.5)]
 
